@@ -79,10 +79,12 @@ theorem nn_state_writes_none : nn_state_writes = [] := by decide
 
 /-! ## phase 3 -/
 
-/-- the functions that decide the property have exactly the structure the model presupposes: the number of returns,
-no return of an input (except `apply_padding`'s documented `padding is None`), **no state written** (no `global`, no
-attribute / module-level container / function-attribute / mutable-default write, no caching decorator), **no in-place
-update of an argument**, and the same branches and loops (a size threshold or a chunking loop changes them) -/
+/-- the functions that decide the property (private helpers followed) behave as the model presupposes: no return of an
+input tensor outside a `is None` guard, **no state written** (no `global`, no attribute / module-level container /
+function-attribute / mutable-default write, no caching decorator), **no in-place update of an argument**, and **no
+condition or loop range that depends on a tensor's shape, dtype or values or on the training / grad mode** (size
+thresholds, chunking, mode-dependent paths).  Layout (number of returns, if/else vs conditional expression, hoisted
+locals, extracted helpers) is not part of the facts. -/
 theorem func_facts_eq : func_facts = expectedFacts := by decide +kernel
 theorem func_facts_pure : func_facts.all FuncFacts.pure = true := by decide +kernel
 
